@@ -17,6 +17,45 @@ from . import core
 from .core import SymInt, EngineUnsupported, need_bits
 
 
+_HEAVY_KINDS = {z3.Z3_OP_BMUL, z3.Z3_OP_BSDIV, z3.Z3_OP_BUDIV, z3.Z3_OP_BSREM, z3.Z3_OP_BUREM, z3.Z3_OP_BSMOD,
+                z3.Z3_OP_BSDIV_I, z3.Z3_OP_BUDIV_I, z3.Z3_OP_BSREM_I, z3.Z3_OP_BUREM_I, z3.Z3_OP_BSMOD_I}
+_HEAVY_MEMO: dict = {}
+
+
+def is_heavy(t) -> bool:
+    """does the term contain a multiplication/division of two non-constant operands?"""
+    if len(_HEAVY_MEMO) > 200000:
+        _HEAVY_MEMO.clear()
+    todo = [t]
+    seen = set()
+    n = 0
+    while todo:
+        x = todo.pop()
+        i = x.get_id()
+        if i in seen:
+            continue
+        seen.add(i)
+        m = _HEAVY_MEMO.get(i)
+        if m is True:
+            _HEAVY_MEMO[t.get_id()] = True
+            core._KEEP.append(t)
+            return True
+        if m is False:
+            continue
+        n += 1
+        if n > 400:
+            break
+        if z3.is_app(x):
+            if x.decl().kind() in _HEAVY_KINDS and sum(1 for c in x.children() if not z3.is_bv_value(c)) >= 2:
+                _HEAVY_MEMO[t.get_id()] = True
+                core._KEEP.append(t)
+                return True
+            todo.extend(x.children())
+    _HEAVY_MEMO[t.get_id()] = False
+    core._KEEP.append(t)
+    return False
+
+
 def key_term(k, bits):
     if type(k) is builtins.int:
         return z3.BitVecVal(k, bits)
@@ -43,30 +82,63 @@ class Store:
             self.conc = {}
             self.cpres = set() if presence else None
         if self.sym:
-            e.uf(name, key_bits, val_bits, export)
+            fresh = name not in e.ufs
+            f = e.uf(name, key_bits, val_bits, export)
             if presence:
                 e.uf(name + "_present", key_bits, 0, export)
+            if fresh and zero_key is not None:
+                # the hard-wired zero of the initial file is an assumption on the initial content
+                # function (keeps read terms canonical: no ite on "index == 0")
+                e.assume(f(z3.BitVecVal(zero_key, key_bits)) == z3.BitVecVal(0, val_bits))
 
     def fork(self):
         return Store(self.e, self.name, self.kb, self.vb, self.presence, zero_key=self.zero_key, _share=self)
 
     # -- symbolic side ---------------------------------------------------------------------------
     def init_term(self, kt):
-        t = self.e.apply_uf(self.name, kt)
-        if self.zero_key is not None:
-            t = z3.If(kt == z3.BitVecVal(self.zero_key, self.kb), z3.BitVecVal(0, self.vb), t)
-        return t
+        return self.e.apply_uf(self.name, kt)
+
+    def _relevant(self, kt):
+        """(base term, [(cond, value)] oldest first): the logged writes that may define the
+        value at kt, after dropping those the index facts of the path exclude and stopping at
+        the newest one they imply."""
+        e = self.e
+        pend = []
+        base = None
+        for wk, wv in reversed(self.log):
+            if z3.is_bv_value(kt) and z3.is_bv_value(wk):
+                r = kt.as_long() == wk.as_long()
+            elif kt.eq(wk):
+                r = True
+            else:
+                r = e.index_implied(kt == wk)
+                if r is None and self.kb <= 8 and is_heavy(wv):
+                    # an undetermined aliasing with a multiplication/division result: fork on it
+                    # instead of burying the product in an ite (keeps arithmetic terms canonical)
+                    r = e.decide(kt == wk)
+            if r is True:
+                base = wv
+                break
+            if r is False:
+                continue
+            pend.append((kt == wk, wv))
+        pend.reverse()
+        return base, pend
 
     def read_term(self, kt):
-        t = self.init_term(kt)
-        for wk, wv in self.log:
-            t = z3.If(kt == wk, wv, t)
+        base, pend = self._relevant(kt)
+        t = self.init_term(kt) if base is None else base
+        for c, wv in pend:
+            t = z3.If(c, wv, t)
         return t
 
     def present_term(self, kt):
+        base, pend = self._relevant(kt)
+        if base is not None:
+            return z3.BoolVal(True)
         t = self.e.apply_uf(self.name + "_present", kt)
-        for wk, wv in self.log:
-            t = z3.Or(kt == wk, t)
+        for c, wv in pend:
+            t = z3.Or(c, t)
         return t
 
     # -- common API --------------------------------------------------------------------------------
